@@ -50,6 +50,13 @@ class Rows:
             out[k] = [t[idx] for t in a] if isinstance(a, list) else a[idx]
         return Rows(**out)
 
+    def concat(self, other):
+        out = {}
+        for k, a in self.arrs.items():
+            b = other.arrs[k]
+            out[k] = [np.concatenate([t, u]) for t, u in zip(a, b)] if isinstance(a, list) else np.concatenate([a, b])
+        return Rows(**out)
+
     def copy(self):
         return Rows(**{k: ([t.copy() for t in a] if isinstance(a, list) else a.copy()) for k, a in self.arrs.items()})
 
@@ -251,13 +258,36 @@ def _elem(r, cls, d):
 
 def build(r: random.Random, name: str, n: int, floats: bool = False, mode: Optional[str] = None,
           eps: Optional[float] = None) -> tuple[Family, Rows]:
-    """a family instance with random valid hyper-parameters and a valid stream of n samples"""
+    """a family instance with random valid hyper-parameters and a valid stream of n samples; `fam.fresh(r, k)`
+    draws k further valid rows of the same layout (queries that were never trained on)"""
+    fam, rows = _build(r, name, n, floats, mode, eps)
+    groups = fam.groups
+
+    def fresh(r2, k, floats2=False):
+        def block(gs):
+            return np.hstack([specs.elem_data(r2, c, k, dd, floats=floats2 and c != "ART1") for c, dd in gs])
+        out = {}
+        for key, a in rows.arrs.items():
+            if key == "X":
+                out[key] = block(groups)
+            elif key == "Xs":
+                out[key] = [block([g]) for g in groups]
+            else:
+                out[key] = a[[r2.randrange(len(a)) for _ in range(k)]] if not isinstance(a, list) else a
+        return Rows(**out)
+    fam.fresh = fresh if groups and ("X" in rows.arrs or "Xs" in rows.arrs) else None
+    return fam, rows
+
+
+def _build(r, name, n, floats, mode, eps):
     mode = mode or r.choice(MODES)
     eps = r.choice([0.0, 2.0 ** -20, 2.0 ** -10, 1e-10]) if eps is None else eps
     d = r.randint(1, 3)
     if name in ELEM:
         spec = _elem(r, name, d)
-        return Elem(name, spec, mode, eps), Rows(X=specs.elem_data(r, name, n, d, floats=floats and name != "ART1"))
+        f = Elem(name, spec, mode, eps)
+        f.groups = [(name, d)]
+        return f, Rows(X=specs.elem_data(r, name, n, d, floats=floats and name != "ART1"))
     if name == "FusionART":
         k = r.randint(1, 3)
         pool = ["FuzzyART", "FuzzyART", "ART2A"] if r.random() < 0.6 else \
@@ -269,13 +299,16 @@ def build(r: random.Random, name: str, n: int, floats: bool = False, mode: Optio
         dims = [specs.width(c, dd) for c, dd in zip(chans, ds)]
         spec = {"cls": "FusionART", "modules": sp, "gamma_values": gam, "channel_dims": dims}
         X = np.hstack([specs.elem_data(r, c, n, dd, floats=floats and c != "ART1") for c, dd in zip(chans, ds)])
-        return Fusion(spec, mode, eps), Rows(X=X)
+        f = Fusion(spec, mode, eps)
+        f.groups = list(zip(chans, ds))
+        return f, Rows(X=X)
     if name == "SimpleARTMAP":
         a = r.choice(ELEM)
         spec = {"cls": "SimpleARTMAP", "module_a": _elem(r, a, d)}
         X = specs.elem_data(r, a, n, d, floats=floats and a != "ART1")
         y = gen.labels(r, n, r.randint(1, 4))
         f = SMap(spec, mode, eps)
+        f.groups = [(a, d)]
         f.a_cls = a
         return f, Rows(X=X, y=y)
     if name == "ARTMAP":
@@ -286,6 +319,7 @@ def build(r: random.Random, name: str, n: int, floats: bool = False, mode: Optio
         X = specs.elem_data(r, a, n, d, floats=floats and a != "ART1")
         y = specs.elem_data(r, b, n, db, style=r.choice(["coarse", "dups"]))
         f = AMap(spec, mode, eps)
+        f.groups = [(a, d)]
         f.a_cls, f.b_cls = a, b
         return f, Rows(X=X, y=y)
     if name in ("DeepARTMAP-sup", "DeepARTMAP-unsup"):
@@ -296,7 +330,9 @@ def build(r: random.Random, name: str, n: int, floats: bool = False, mode: Optio
         spec = {"cls": "DeepARTMAP", "modules": [_elem(r, c, dd) for c, dd in zip(cls, ds)]}
         Xs = [specs.elem_data(r, c, n, dd) for c, dd in zip(cls, ds)]
         y = gen.labels(r, n, r.randint(1, 3))
-        return Deep(spec, mode, eps, sup), Rows(Xs=Xs, y=y)
+        f = Deep(spec, mode, eps, sup)
+        f.groups = list(zip(cls, ds))
+        return f, Rows(Xs=Xs, y=y)
     if name == "SMART":
         base = r.choice(["FuzzyART", "FuzzyART", "HypersphereART", "ART2A", "EllipsoidART"])
         k = r.randint(2, 4)
@@ -305,7 +341,9 @@ def build(r: random.Random, name: str, n: int, floats: bool = False, mode: Optio
         if bp.get("alpha") == 0.0:
             bp["alpha"] = 2.0 ** -10
         spec = {"cls": "SMART", "base": base, "rho_values": rhos, "base_params": bp}
-        return Smart(spec, mode, eps), Rows(X=specs.elem_data(r, base, n, d))
+        f = Smart(spec, mode, eps)
+        f.groups = [(base, d)]
+        return f, Rows(X=specs.elem_data(r, base, n, d))
     if name in ("FALCON", "TD_FALCON"):
         ds_, da = r.randint(1, 2), r.randint(1, 2)
         sp = [_elem(r, "FuzzyART", ds_), _elem(r, "FuzzyART", da), _elem(r, "FuzzyART", 1)]
@@ -317,7 +355,9 @@ def build(r: random.Random, name: str, n: int, floats: bool = False, mode: Optio
         S = gen.cc(gen.grid_rows(r, n, ds_))
         A = gen.cc(gen.grid_rows(r, n, da, style="coarse"))
         R = gen.cc(gen.grid_rows(r, n, 1, style="coarse"))
-        return (TDFalcon if name == "TD_FALCON" else Falcon)(spec, mode, eps), Rows(S=S, A=A, R=R)
+        f = (TDFalcon if name == "TD_FALCON" else Falcon)(spec, mode, eps)
+        f.groups = []
+        return f, Rows(S=S, A=A, R=R)
     if name == "DualVigilanceART":
         base = r.choice(["FuzzyART", "HypersphereART", "ART2A", "EllipsoidART", "ART1", "QuadraticNeuronART", "GaussianART"])
         bs = _elem(r, base, d)
@@ -325,7 +365,9 @@ def build(r: random.Random, name: str, n: int, floats: bool = False, mode: Optio
             bs["rho"] = 0.5
         lb = r.choice([x for x in [0.0, 0.125, 0.25, 0.375, 0.5, 0.75] if x < bs["rho"]])
         spec = {"cls": "DualVigilanceART", "base_module": bs, "rho_lower_bound": lb}
-        return Dual(spec, mode, eps), Rows(X=specs.elem_data(r, base, n, d, floats=floats and base != "ART1"))
+        f = Dual(spec, mode, eps)
+        f.groups = [(base, d)]
+        return f, Rows(X=specs.elem_data(r, base, n, d, floats=floats and base != "ART1"))
     if name == "TopoART":
         base = r.choice(specs.HAS_BETA)
         bs = _elem(r, base, d)
@@ -333,16 +375,22 @@ def build(r: random.Random, name: str, n: int, floats: bool = False, mode: Optio
         phi = r.randint(1, tau)
         spec = {"cls": "TopoART", "base_module": bs, "beta_lower": r.choice([b for b in [0.0, 0.25, 0.5, 1.0] if b <= bs["beta"]]),
                 "tau": tau, "phi": phi}
-        return Topo(spec, mode, eps), Rows(X=specs.elem_data(r, base, n, d, floats=floats))
+        f = Topo(spec, mode, eps)
+        f.groups = [(base, d)]
+        return f, Rows(X=specs.elem_data(r, base, n, d, floats=floats))
     if name == "CVIART":
         n = min(n, 24)      # every candidate evaluates an O(n^2) sklearn index twice
         base = r.choice(["FuzzyART", "HypersphereART", "FuzzyART"])
         spec = {"cls": "CVIART", "base_module": _elem(r, base, max(d, 2)), "validity": r.choice([1, 2, 3])}
-        return Cvi(spec, mode, eps), Rows(X=specs.elem_data(r, base, n, max(d, 2)))
+        f = Cvi(spec, mode, eps)
+        f.groups = [(base, max(d, 2))]
+        return f, Rows(X=specs.elem_data(r, base, n, max(d, 2)))
     if name == "iCVIFuzzyART":
         p = gen.fuzzy_params(r)
         spec = {"cls": "iCVIFuzzyART", **p, "validity": 1, "offline": r.random() < 0.5}
-        return ICvi(spec, mode, eps), Rows(X=gen.cc(gen.grid_rows(r, n, max(d, 2))))
+        f = ICvi(spec, mode, eps)
+        f.groups = [("FuzzyART", max(d, 2))]
+        return f, Rows(X=gen.cc(gen.grid_rows(r, n, max(d, 2))))
     raise KeyError(name)
 
 
